@@ -339,6 +339,27 @@ func init() {
 				docs := []string{`{}`, docWithEveryKey(c, cp, mustParse(p1T), mustParse(p2T)), cp.Object(c.R, 3)}
 				judgeCompose(c, legacyCompose, p1T, p2T, docs)
 			}},
+			{Name: "names-that-differ-by-case-folding-or-normalisation", Count: n(9000, 600000), Run: func(c *core.Ctx, idx int) {
+				np := mprof.With(func(p *gen.Profile) { p.Keys = gen.NearMissPlainKeys; p.Width = 3 })
+				switch idx % 3 {
+				case 0:
+					docT := np.Object(c.R, 1+c.R.Intn(3))
+					judgeMerge(c, jpl.MergePatch, "legacy:", docT, genMergePatchFor(c.R, np, mustParse(docT)))
+				case 1:
+					p1T, p2T := np.Object(c.R, 1+c.R.Intn(2)), np.Object(c.R, 1+c.R.Intn(2))
+					judgeCompose(c, legacyCompose, p1T, p2T, []string{`{}`, docWithEveryKey(c, np, mustParse(p1T), mustParse(p2T)), np.Object(c.R, 2)})
+				default:
+					fp := np.With(func(p *gen.Profile) { p.Numbers = gen.PlainNumbers })
+					aT := fp.Object(c.R, 1+c.R.Intn(3))
+					b := editObject(c.R, fp, mustParse(aT), 1+c.R.Intn(3))
+					if !float64Exact(b) {
+						c.Count("out_of_domain:number-not-a-float64")
+						return
+					}
+					judgeCreateObj(c, legacyCreate, aT, fp.Respell(c.R, b, c.R.Intn(2) == 0))
+				}
+				c.Count("near-miss-names:cases")
+			}},
 			{Name: "equal-pairs", Count: n(60000, 3600000), Run: func(c *core.Ctx, idx int) {
 				ep := gen.Plain().With(func(p *gen.Profile) { p.Keys = legacyKeys; p.Numbers = gen.OddNumbers; p.WS = 10 })
 				aT := ep.Root(c.R)
